@@ -18,6 +18,11 @@ MODELS = {
                     "workers": 10, "timeout_quick": 600, "timeout_thorough": 3000,
                     "sample": "farm create/expand/close/auto-close, positions create(for)/expand/close(partial)/withdraw/emergency, "
                               "claims, swallowed refunds, reward denom = LP denom; custody, conservation, limits"},
+    "MC_Auth": {"module": "MC_Auth", "quick": "MC_Auth.cfg", "thorough": "MC_Auth.cfg", "workers": 1, "timeout_quick": 300,
+                "sample": "complete graph: 4 contracts x reachable ownership states (incl. pending with/without deadline, expired, transferred, "
+                          "renounced) x every privileged message variant x 5 sender roles x funds attached or not"},
+    "MC_Exec": {"module": "MC_Exec", "quick": "MC_Exec.cfg", "thorough": "MC_Exec.cfg", "workers": 2, "timeout_quick": 120,
+                "sample": "CosmWasm dispatch/rollback semantics (Cw.tla) over the response shapes of 8 entry points, a failure injected at every dispatch"},
     "MC_Pool": {"module": "MC_Pool", "quick": "MC_Pool.cfg", "thorough": "MC_Pool_thorough.cfg",
                 "workers": 10, "timeout_quick": 600, "timeout_thorough": 3000,
                 "sample": "two constant-product pools sharing a denom, exact integer formulas with fees; deposits, single-asset "
@@ -51,22 +56,44 @@ def farm_behaviours(seed, tier, tdir):
                      "sim_states": int(m.group(1)) if m else 0, "sample_behaviour": json.loads(out[0])}}
 
 
+def auth_edges(seed, tier, tdir):
+    """TLC enumerates the complete authorisation graph of MC_Auth; every edge is replayed."""
+    cmd = ["timeout", "300", "java", "-XX:+UseParallelGC", "-Xmx4g", "-cp", CP, "tlc2.TLC", "-workers", "1",
+           "-metadir", os.path.join(tdir, "auth"), "-cleanup", "-noGenerateSpecTE", "-config", "MC_Auth.cfg", "MC_Auth.tla"]
+    p = subprocess.run(cmd, cwd=SPEC, capture_output=True, text=True)
+    out = [json.loads(l.strip()[len('<<"EDGE", '):-2]) for l in p.stdout.splitlines() if l.startswith('<<"EDGE", ')]
+    m = re.search(r"(\d+) states generated, (\d+) distinct states found", p.stdout)
+    if "violated" in p.stdout or "Error" in p.stdout or not out or not m:
+        raise RuntimeError("MC_Auth failed:\n" + p.stdout[-3000:])
+    path = os.path.join(tdir, "auth_edges.ndjson")
+    open(path, "w").write("\n".join(out) + "\n")
+    return {"args": ["--edges", path],
+            "info": {"edges": len(out), "states": int(m.group(2)), "transitions": int(m.group(1)), "exhaustive": True,
+                     "sample_edge": json.loads(out[len(out) // 2])}}
+
+
 FAMILIES = {
     "epoch": {"drivers": [{"name": "epoch", "spec": "Trace_Epoch"}]},
     "farm": {"drivers": [{"name": "farm", "spec": "Trace_Farm"},
                          {"name": "farm_replay", "spec": "Trace_Farm", "pre": farm_behaviours}]},
 }
 
+FAMILIES["auth"] = {"drivers": [{"name": "auth", "spec": "Trace_Auth", "pre": auth_edges}]}
+FAMILIES["fault"] = {"drivers": [{"name": "fault", "spec": "Trace_Fault"}]}
 FAMILIES["pool"] = {"drivers": [{"name": "pool", "spec": "Trace_Pool"}, {"name": "stable", "spec": "Trace_Pool"}]}
 
 PROPS = {
+    "C20": {"level": "fault_enumeration", "models": ["MC_Exec"], "families": ["fault", "farm", "pool", "epoch", "auth"]},
     "C01": {"level": "model_checking", "models": ["MC_Pool"], "families": ["pool"]},
     "C02": {"level": "model_checking", "models": ["MC_Pool"], "families": ["pool"]},
     "C03": {"level": "model_checking", "models": ["MC_Pool"], "families": ["pool"]},
     "C04": {"level": "model_checking", "models": ["MC_Pool"], "families": ["pool"]},
     "C12": {"level": "model_checking", "models": [], "families": ["pool"]},
     "C13": {"level": "model_checking", "models": [], "families": ["pool"]},
-    "C14": {"level": "model_checking", "models": ["MC_Pool"], "families": ["pool"]},
+    "C14": {"level": "model_checking", "models": ["MC_Pool", "MC_Exec"], "families": ["pool", "fault"]},
+    "C15": {"level": "model_checking", "models": ["MC_Auth"], "families": ["auth", "farm", "pool", "epoch"], "exhaustive": True,
+            "assumptions": ["exhaustive refers to the ownership/config/toggle matrix of MC_Auth (every edge replayed); farm- and position-level "
+                            "authorisation is judged on the farm/pool traces (C15_* guards), which are sampled"]},
     "C16": {"level": "model_checking", "models": [], "families": ["pool"]},
     "C17": {"level": "model_checking", "models": ["MC_Pool"], "families": ["pool"]},
     "C19": {"level": "model_checking", "models": [], "families": ["pool"]},
